@@ -1,10 +1,13 @@
 package props
 
 import (
+	"crypto/x509"
 	"fmt"
 	"time"
 
 	"github.com/beevik/etree"
+	saml2 "github.com/russellhaering/gosaml2"
+	dsig "github.com/russellhaering/goxmldsig"
 
 	"verif/harness/mon"
 	"verif/harness/sim"
@@ -22,7 +25,7 @@ func runC02(c *mon.Ctx) {
 	nb, na := base, base.Add(2*time.Hour)
 	certFor := func(name string, serial int64) *sim.Cert { return sim.Mint(sim.K(name), nb, na, serial) }
 	kinds := []string{"sso-resp", "sso-assert", "sso-bad-resp-over-good-assertions", "logout-req", "logout-resp"}
-	signers := []string{"member", "member", "member", "untrusted", "foreign-key", "same-key-other-cert", "no-keyinfo", "no-keyinfo"}
+	signers := []string{"member", "member", "member", "untrusted", "foreign-key", "same-key-other-cert", "no-keyinfo", "no-keyinfo", "twin-member"}
 	clocks := []struct {
 		name   string
 		t      time.Time
@@ -54,6 +57,16 @@ func runC02(c *mon.Ctx) {
 		var signKey *sim.Key
 		inStore := false
 		switch sg {
+		case "twin-member":
+			// store members of different keys that share subject and serial number: each must vouch for itself only
+			store = nil
+			for i := 0; i < 2+r.IntN(2); i++ {
+				store = append(store, sim.MintNamed(sim.K(keyNames[perm[i]]), "verif-shared-subject", nb, na, 77))
+			}
+			storeSize = len(store)
+			signCert = store[r.IntN(len(store))]
+			signKey = signCert.Key
+			inStore = true
 		case "member", "no-keyinfo":
 			if storeSize == 0 || r.IntN(5) == 0 {
 				// the signer's certificate is not in the store
@@ -97,14 +110,19 @@ func runC02(c *mon.Ctx) {
 		if sg == "foreign-key" {
 			honour = false
 		}
-		// message
+		// message (any layout, incl. xmlns:ds declared on the root instead of on the Signature)
+		st := sim.RandomStyle(r)
+		st.TextTricks = 0
+		if st.DeclareDS && spec.DSPrefix == "" && !spec.DSDefault {
+			spec.NoNSDecl = true
+		}
 		var doc string
 		var err error
 		isLogout := kind == "logout-req" || kind == "logout-resp"
 		if isLogout {
 			l := sim.GenuineLogout(w.Env, kind == "logout-resp")
 			l.Sig = spec
-			doc, err = sim.BuildLogout(l, sim.PlainStyle())
+			doc, err = sim.BuildLogout(l, st)
 		} else {
 			rec := sim.GenuineResponse(w.Env, 1+r.IntN(2))
 			switch kind {
@@ -124,6 +142,7 @@ func runC02(c *mon.Ctx) {
 				storeSize++
 				for _, a := range rec.Assertions {
 					a.Sig = sim.DefaultSig(good.Key, good)
+					a.Sig.NoNSDecl = st.DeclareDS
 				}
 				rec.Sig = spec
 				if sg == "no-keyinfo" {
@@ -133,7 +152,7 @@ func runC02(c *mon.Ctx) {
 					}
 				}
 			}
-			doc, err = sim.BuildResponse(rec, sim.PlainStyle())
+			doc, err = sim.BuildResponse(rec, st)
 		}
 		if err != nil {
 			cs.Inconclusive("simulator-error")
@@ -177,7 +196,7 @@ func runC02(c *mon.Ctx) {
 			}
 			doc = sim.DocString(d)
 		}
-		cs.Desc("kind=%s signer=%s clock=%s tamper=%s store=%d inStore=%v spec=%s", kind, sg, clk.name, tamper, storeSize, inStore, spec)
+		cs.Desc("kind=%s signer=%s clock=%s tamper=%s store=%d inStore=%v spec=%s dsOnRoot=%v", kind, sg, clk.name, tamper, storeSize, inStore, spec, spec.NoNSDecl)
 		cs.Input([]byte(doc))
 		sp, spy, _ := NewSP(now, store...)
 		spy.WantStacks = true
@@ -243,5 +262,135 @@ func runC02(c *mon.Ctx) {
 			cs.Outcome("rejected:" + sg)
 		}
 		cs.Sample(map[string]any{"honour": honour, "accepted": accepted, "flagged": flagged, "err": fmt.Sprint(rerr)})
+	}
+
+	// ---- the store is consulted afresh: after a key roll-over the retired certificate no longer vouches ----
+	nr := c.N(400, 10000)
+	for k := 0; k < nr; k++ {
+		cs := c.Begin("store-rotation", k)
+		if cs == nil {
+			continue
+		}
+		r := cs.Rand()
+		now := nb.Add(time.Hour)
+		w := NewWorld(now)
+		oldC, newC := certFor("idp1", 10), certFor("idp2", 10)
+		if r.IntN(2) == 0 {
+			oldC, newC = certFor("idp3", 10), certFor("idp1", 10)
+		}
+		kind := kinds[k%len(kinds)]
+		if kind == "sso-bad-resp-over-good-assertions" {
+			kind = "sso-resp"
+		}
+		mk := func(c *sim.Cert) string {
+			spec := sim.DefaultSig(c.Key, c)
+			spec.NoKeyInfo = r.IntN(3) == 0
+			switch kind {
+			case "logout-req", "logout-resp":
+				l := sim.GenuineLogout(w.Env, kind == "logout-resp")
+				l.Sig = spec
+				d, _ := sim.BuildLogout(l, sim.PlainStyle())
+				return d
+			}
+			rec := sim.GenuineResponse(w.Env, 1)
+			if kind == "sso-resp" {
+				rec.Sig = spec
+			} else {
+				rec.Assertions[0].Sig = spec
+			}
+			d, _ := sim.BuildResponse(rec, sim.PlainStyle())
+			return d
+		}
+		accept := func(sp *saml2.SAMLServiceProvider, doc string) bool {
+			enc := sim.Encode(doc, sim.RawLevel)
+			switch kind {
+			case "logout-req", "logout-resp":
+				_, err := callLogout(sp, kind == "logout-resp", enc)
+				return err == nil
+			}
+			_, err := sp.ValidateEncodedResponse(enc)
+			return err == nil
+		}
+		sp, _, st := NewSP(now, oldC)
+		how := "roots-replaced-in-place"
+		cs.Desc("kind=%s old=%s new=%s", kind, oldC.Key.Name, newC.Key.Name)
+		cs.Nontrivial(fmt.Sprintf("%s/%d", cs.Description(), k))
+		first := accept(sp, mk(oldC))
+		if r.IntN(2) == 0 {
+			st.Roots = []*x509.Certificate{newC.X509}
+		} else {
+			how = "store-reassigned"
+			sp.IDPCertificateStore = &dsig.MemoryX509CertificateStore{Roots: []*x509.Certificate{newC.X509}}
+		}
+		oldAfter := accept(sp, mk(oldC))
+		newAfter := accept(sp, mk(newC))
+		switch {
+		case !first:
+			cs.Violation("trusted-signature-not-honoured:"+kind, "message signed by the sole store member rejected before any rotation")
+		case oldAfter:
+			cs.Outcome("retired-key-still-honoured")
+			cs.Violation("retired-certificate-honoured:"+kind, "after the store was rotated (%s) a message signed with the retired certificate is still accepted", how)
+		case !newAfter:
+			cs.Outcome("new-key-not-honoured")
+			cs.Violation("new-certificate-not-honoured:"+kind, "after the store was rotated (%s) a message signed with the new store member is rejected", how)
+		default:
+			cs.Outcome("rotation-respected:" + how)
+		}
+	}
+
+	// ---- one long-lived SP whose clock moves across the signing certificate's window ----
+	nw := c.N(300, 10000)
+	for k := 0; k < nw; k++ {
+		cs := c.Begin("same-sp-clock-walk", k)
+		if cs == nil {
+			continue
+		}
+		r := cs.Rand()
+		member := certFor(pick(r, []string{"idp1", "idp3"}), 10)
+		sp, spy, _ := NewSP(nb.Add(time.Hour), member)
+		kind := []string{"sso-resp", "sso-assert", "logout-req", "logout-resp"}[k%4]
+		var trace []string
+		bad := false
+		for i := 0; i < 3+r.IntN(4) && !bad; i++ {
+			clk := clocks[r.IntN(len(clocks))]
+			if i == 0 {
+				clk = clocks[2]
+			}
+			spy.Set(clk.t)
+			w := NewWorld(clk.t)
+			spec := sim.DefaultSig(member.Key, member)
+			var doc string
+			switch kind {
+			case "logout-req", "logout-resp":
+				l := sim.GenuineLogout(w.Env, kind == "logout-resp")
+				l.Sig = spec
+				doc, _ = sim.BuildLogout(l, sim.PlainStyle())
+			default:
+				rec := sim.GenuineResponse(w.Env, 1)
+				if kind == "sso-resp" {
+					rec.Sig = spec
+				} else {
+					rec.Assertions[0].Sig = spec
+				}
+				doc, _ = sim.BuildResponse(rec, sim.PlainStyle())
+			}
+			enc := sim.Encode(doc, sim.RawLevel)
+			var err error
+			if kind == "logout-req" || kind == "logout-resp" {
+				_, err = callLogout(sp, kind == "logout-resp", enc)
+			} else {
+				_, err = sp.ValidateEncodedResponse(enc)
+			}
+			trace = append(trace, fmt.Sprintf("%s:%v", clk.name, err == nil))
+			if (err == nil) != clk.inside {
+				bad = true
+				cs.Violation("certificate-window-not-rechecked:"+kind, "step %d: clock %s, accepted=%v (trace %v, err %v)", i, clk.name, err == nil, trace, err)
+			}
+		}
+		cs.Desc("kind=%s trace=%v", kind, trace)
+		cs.Nontrivial(fmt.Sprintf("%v/%d", trace, k))
+		if !bad {
+			cs.Outcome("window-rechecked")
+		}
 	}
 }
